@@ -135,7 +135,7 @@ func nativeReplay(run HarnessRun, vecs []string, repeat int) (map[string][]strin
 	}
 	defer os.RemoveAll(scratch)
 	hdir := filepath.Join(verifDir, "harness", run.Dir)
-	ov, err := sym.HarnessOverlay(hdir, "/repo", run.Rel)
+	ov, err := sym.HarnessOverlay(hdir, repoDir, run.Rel)
 	if err != nil {
 		return nil, "", err
 	}
@@ -223,12 +223,12 @@ func TestVReplay(t *testing.T) {
 	if err := os.WriteFile(testReal, []byte(test+disp), 0o644); err != nil {
 		return nil, "", err
 	}
-	replace[filepath.Join("/repo", run.Rel, "zz_verif_replay_test.go")] = testReal
+	replace[filepath.Join(repoDir, run.Rel, "zz_verif_replay_test.go")] = testReal
 	ovJSON, _ := json.Marshal(map[string]interface{}{"Replace": replace})
 	ovPath := filepath.Join(scratch, "overlay.json")
 	os.WriteFile(ovPath, ovJSON, 0o644)
 	cmd := exec.Command("go", "test", "-v", "-vet=off", "-count=1", "-run", "^TestVReplay$", "-overlay", ovPath, "-timeout", "10m", "./"+run.Rel)
-	cmd.Dir = "/repo"
+	cmd.Dir = repoDir
 	cmd.Env = append(os.Environ(), "GOFLAGS=-mod=mod", "GOPROXY=off", "GOSUMDB=off", "GOTOOLCHAIN=local",
 		"VREPLAY_FILES="+strings.Join(vecs, ","))
 	out, err := cmd.CombinedOutput()
@@ -250,6 +250,16 @@ func TestVReplay(t *testing.T) {
 }
 
 var nativeObs = map[string]string{}
+
+// repoDir is the tree under test: /repo, unless GOSYM_REPO names a scratch copy (used only for
+// development runs against seeded changes; registered commands never set it). evidence and replay
+// files of such runs go to GOSYM_OUT instead of /verif.
+var repoDir = func() string {
+	if d := os.Getenv("GOSYM_REPO"); d != "" {
+		return d
+	}
+	return "/repo"
+}()
 
 func tagReproduced(tag string, failed []string) bool {
 	for _, f := range failed {
@@ -319,10 +329,16 @@ func cmdCheck(args []string) {
 		}
 	}
 	ev := evidence{PropertyID: id, Tier: *tier, Seed: seed, Level: "model_checking", Coverage: map[string]interface{}{}, Assumptions: spec.Assumptions}
-	evPath := filepath.Join(verifDir, "evidence", id+".json")
+	outDir := verifDir
+	if d := os.Getenv("GOSYM_OUT"); d != "" && os.Getenv("GOSYM_REPO") != "" {
+		outDir = d
+	} else if os.Getenv("GOSYM_REPO") != "" {
+		outDir = filepath.Join(os.TempDir(), "gosym-out")
+	}
+	evPath := filepath.Join(outDir, "evidence", id+".json")
 	os.MkdirAll(filepath.Dir(evPath), 0o755)
 	os.Remove(evPath)
-	replayDir := filepath.Join(verifDir, "replay", id)
+	replayDir := filepath.Join(outDir, "replay", id)
 	os.RemoveAll(replayDir)
 	os.MkdirAll(replayDir, 0o755)
 
@@ -359,12 +375,12 @@ func cmdCheck(args []string) {
 		prog := progs[key]
 		if prog == nil {
 			hdir := filepath.Join(verifDir, "harness", run.Dir)
-			ov, err := sym.HarnessOverlay(hdir, "/repo", run.Rel)
+			ov, err := sym.HarnessOverlay(hdir, repoDir, run.Rel)
 			if err != nil {
 				fmt.Fprintln(os.Stderr, "harness:", err)
 				os.Exit(2)
 			}
-			prog, err = sym.Load(sym.LoadConfig{RepoDir: "/repo", Patterns: []string{"./" + run.Rel}, Overlay: ov})
+			prog, err = sym.Load(sym.LoadConfig{RepoDir: repoDir, Patterns: []string{"./" + run.Rel}, Overlay: ov})
 			if err != nil {
 				fmt.Println("INCONCLUSIVE: harness does not build against the current tree:")
 				fmt.Println(err)
